@@ -78,6 +78,9 @@ func genSet(r *sim.RNG, forceTarget int) sim.Step {
 		case 0:
 			k := tg.keys[r.Intn(len(tg.keys))]
 			if tg.trim && r.Bool(0.1) {
+				if r.Bool(0.4) {
+					st.S = append(st.S, k, val(k)) // the same setting twice once the contract has trimmed the keys
+				}
 				k = " " + k + " "
 			}
 			st.S = append(st.S, k, val(k))
@@ -275,7 +278,11 @@ func opSet(r *ledger.Runner, st sim.Step) {
 	if cls != "owner" {
 		w.Tr.Fault("wrong_caller")
 	}
-	if len(kv) >= 4 && (st.Int(1, 0)%8 == 0 || st.Int(1, 0)%8 == 6) {
+	staged := 0
+	if tg == tgStorage {
+		staged = len(stagedOf(rawRecord(r.BC, keyStorageStg))) // re-applied together with the new entries
+	}
+	if len(kv)/2+staged >= 2 && len(kv) >= 2 && (st.Int(1, 0)%8 == 0 || st.Int(1, 0)%8 == 6) {
 		if orderDependent(r, from, tg.addr, tg.fn, raw, tg.name) {
 			return // not submitted: its outcome is not a function of the plan
 		}
@@ -304,12 +311,16 @@ func opCommit(r *ledger.Runner, st sim.Step) {
 }
 
 // screenRuns is the number of scratch executions of the pre-screen. The Go
-// runtime starts every map iteration at a random position, so a call whose
-// result depends on the iteration order of its settings map shows at least two
-// different results among n executions except with probability <= 2^-(n-1).
-const screenRuns = 24
+// runtime starts every map iteration at a random slot of the bucket, so for a
+// map of a few entries the less likely of two iteration orders still has
+// probability >= 1/8 (one slot out of eight; >= 1/16 for two buckets): a call
+// whose result depends on the iteration order of its settings map shows two
+// different results among n executions except with probability (15/16)^n,
+// below 3e-6 for n = 200 (and (7/8)^200 < 3e-12 for the usual single bucket).
+// The loop stops at the first difference.
+const screenRuns = 200
 
-// orderDependent executes a governance call screenRuns times in scratch
+// orderDependent executes a governance call up to screenRuns times in scratch
 // contexts on the current state (nothing is kept) and compares acceptance and
 // the resulting settings records. A call whose *result* differs between
 // executions of the same input on the same state is reported (the settings in
@@ -327,6 +338,9 @@ func orderDependent(r *ledger.Runner, from, addr, fn, raw, name string) bool {
 			if err != nil {
 				outs[err.Error()] = true
 				results["refused"]++
+				if len(results) > 1 {
+					break
+				}
 				continue
 			}
 			sig := "accepted"
@@ -338,6 +352,9 @@ func orderDependent(r *ledger.Runner, from, addr, fn, raw, name string) bool {
 				sig += fmt.Sprintf("/%x", sim.Hash64(string(b)))
 			}
 			results[sig]++
+			if len(results) > 1 {
+				break
+			}
 		}
 	})
 	if len(outs) > 1 {
@@ -346,14 +363,10 @@ func orderDependent(r *ledger.Runner, from, addr, fn, raw, name string) bool {
 	if len(results) <= 1 {
 		return false
 	}
-	kind := "different-settings-stored"
-	if results["refused"] > 0 {
-		kind = "accepted-or-refused"
-	}
 	w.Tr.Fault("order_dependent_call_not_submitted")
 	if r.Plan != nil && r.Plan.Prop == "C48" {
-		w.Tr.Violate(&sim.Violation{Prop: "C48", Oracle: "order", Sig: fmt.Sprintf("C48/%s/result-depends-on-map-iteration-order/%s", name, kind),
-			Detail: fmt.Sprintf("%s with input %s executed %d times on the same state gave %d different results (%s)", fn, raw, screenRuns, len(results), kind)})
+		w.Tr.Violate(&sim.Violation{Prop: "C48", Oracle: "order", Sig: fmt.Sprintf("C48/%s/result-depends-on-map-iteration-order", name),
+			Detail: fmt.Sprintf("%s with input %s executed repeatedly on the same state is sometimes refused and sometimes accepted, or stores different settings", fn, raw)})
 	} else {
 		w.Tr.Event("order-dependent %s not submitted", fn)
 	}
@@ -530,6 +543,14 @@ func (oc *oracle48) AfterTxn(w *ledger.World, bc *ledger.BlockCtx, o *ledger.Out
 	for _, k0 := range sortedKeys(all) {
 		k, v := norm(k0, all[k0])
 		kind, known := tg.kind(k)
+		if !known && strings.HasPrefix(k, "cost.") && (tg == tgMiner || tg == tgStorage) {
+			// the cost table of these contracts is keyed by function name: an entry the table already holds is a setting
+			if rec, err := decodeGeneric(pre[tg.recs[len(tg.recs)-1]]); err == nil {
+				if _, ok := numAt(rec, tg.path(k)); ok {
+					kind, known = tCost, true
+				}
+			}
+		}
 		if !known {
 			oc.violate(w, "accepted-input", fmt.Sprintf("C48/%s/accepted-unknown-key/%s", tg.name, keyClass(k)),
 				fmt.Sprintf("update with key %q = %q was accepted", k0, v))
@@ -730,6 +751,11 @@ func (oc *oracle48) checkStored(w *ledger.World, bc *ledger.BlockCtx, tg *target
 // invariants the contract declares for its configuration where no such path
 // exists (vesting). Returns "" when valid.
 func validateStored(w *ledger.World, bc *ledger.BlockCtx, tg *target, rec any, owner string) (msg string) {
+	// the configuration invariants each contract declares, re-checked on the decoded record
+	// (independent of the update path, which is the code under test)
+	if m := declaredInvariants(tg, rec); m != "" {
+		return m
+	}
 	withHooksOff(w, func() {
 		switch tg {
 		case tgMiner, tgFaucet, tgZcn:
@@ -770,6 +796,60 @@ func validateStored(w *ledger.World, bc *ledger.BlockCtx, tg *target, rec any, o
 		}
 	})
 	return msg
+}
+
+// declaredInvariants re-checks the invariants a contract declares for its
+// configuration (the conditions of its validate function / sc.yaml), read from
+// the generic decode of the stored record. "" when they hold.
+func declaredInvariants(tg *target, rec any) string {
+	n := func(p string) float64 { v, _ := numAt(rec, p); return v }
+	switch tg {
+	case tgMiner:
+		switch {
+		case n("MinN") < 1:
+			return "min_n is too small"
+		case n("MaxN") < n("MinN"):
+			return "max_n is less than min_n"
+		case n("MinS") < 1:
+			return "min_s is too small"
+		case n("MaxS") < n("MinS"):
+			return "max_s is less than min_s"
+		case n("MaxDelegates") <= 0:
+			return "max_delegates is too small"
+		case n("NumSharderDelegatesRewarded") < 0, n("NumMinerDelegatesRewarded") < 0, n("NumShardersRewarded") < 0:
+			return "a rewarded-count setting is negative"
+		}
+	case tgFaucet:
+		c := "FaucetConfig."
+		switch {
+		case n(c+"PourAmount") < 1:
+			return "pour amount is less than 1"
+		case n(c+"PourAmount") > n(c+"MaxPourAmount"):
+			return "max pour amount is less than pour amount"
+		case n(c+"MaxPourAmount") > n(c+"PeriodicLimit"):
+			return "periodic limit is less than max pour amount"
+		case n(c+"PeriodicLimit") > n(c+"GlobalLimit"):
+			return "global limit is less than periodic limit"
+		case int64(n(c+"IndividualReset"))/1e9 < 1:
+			return "individual reset is too short"
+		case n(c+"GlobalReset") < n(c+"IndividualReset"):
+			return "global reset is less than individual reset"
+		}
+	case tgZcn:
+		c := "ZCNSConfig."
+		own, _ := strAt(rec, c+"OwnerId")
+		switch {
+		case n(c+"MinStakeAmount") < 1, n(c+"MaxStakeAmount") < 1, n(c+"MinMintAmount") < 1, n(c+"MaxFee") < 1, n(c+"MinAuthorizers") < 1, n(c+"MinBurnAmount") < 1:
+			return "an amount or count of the bridge configuration is less than 1"
+		case n(c+"PercentAuthorizers") < 0:
+			return "percent_authorizers is negative"
+		case own == "":
+			return "owner id is empty"
+		case n(c+"MaxDelegates") <= 0, n(c+"HealthCheckPeriod") <= 0:
+			return "max_delegates / health_check_period not positive"
+		}
+	}
+	return ""
 }
 
 // checkCommit: commit_settings_changes (callable by anyone) may only apply
